@@ -65,7 +65,7 @@ func (r sbReq) encode() *hx.Nums {
 	n.Int(len(r.Root.Fen)).Bytes([]byte(r.Root.Fen))
 	n.Int(len(r.Root.Moves))
 	for _, m := range r.Root.Moves {
-		n.U(uint64(m))
+		n.U(hx.M2U(m))
 	}
 	return n
 }
@@ -105,7 +105,7 @@ func sbDecode(a hx.Args, at int) (sbReq, int, bool) {
 		return r, at, false
 	}
 	for k := 0; k < nm; k++ {
-		r.Root.Moves = append(r.Root.Moves, move.Move(a.U64(i+k)))
+		r.Root.Moves = append(r.Root.Moves, hx.U2M(a.U64(i+k)))
 	}
 	return r, i + nm, true
 }
@@ -553,7 +553,7 @@ func sbEngine(ttKB, warm int, b *board.Board) *search.Search {
 func sbSortedMoves(ms []move.Move) []uint64 {
 	out := make([]uint64, len(ms))
 	for i, m := range ms {
-		out[i] = uint64(m)
+		out[i] = hx.M2U(m)
 	}
 	sort.Slice(out, func(i, j int) bool { return out[i] < out[j] })
 	return out
